@@ -51,14 +51,16 @@ def to_dimacs_file(formula, fileorname=None,
     if export_header:
         # remove non ascii text
         for field in formula.header:
-            tmp = "c {}: {}\n".format(field, formula.header[field])
+            tmp = "c {}: {}".format(field, formula.header[field])
             tmp = tmp.encode('ascii', errors='replace').decode('ascii')
-            output.write(tmp)
+            # a multi-line value must stay inside the comment
+            output.write("\nc ".join(tmp.splitlines()) + "\n")
         output.write("c\n")
 
     if export_varnames:
         for varid, label in enumerate(formula.all_variable_labels(), start=1):
-            output.write("c varname {0} {1}\n".format(varid, label))
+            tmp = "c varname {0} {1}".format(varid, label)
+            output.write("\nc ".join(tmp.splitlines()) + "\n")
         output.write("c\n")
 
     # Formula specification
